@@ -161,7 +161,7 @@ class Scenario:
 
     # -- operations: each mutates the LIVE simulation through its public API and the record cfg
     def ops(self):
-        return self.model_ops + ["rho", "rayleigh", "translate", "rotate", "symmetry", "setcoord", "replacemesh", "rebc",
+        return self.model_ops + ["rho", "rayleigh", "translate", "rotate", "symmetry", "setcoord", "nudge", "replacemesh", "rebc",
                                  "algo", "solve_save", "setiter0"] + self.extra_ops
 
     def apply(self, simu, cfg, op, live):
@@ -204,6 +204,13 @@ class Scenario:
             y = x.copy()
             y[:, 0] = 1.4 * x[:, 0] + 0.2 * x[:, 1]
             y[:, 1] = 0.8 * x[:, 1]
+            mesh.coord = y
+        elif op == "nudge":
+            # a very small, non-uniform move of the nodes (shape-sensitivity / finite-difference use): far above round-off
+            # (2e-6 relative) but below the default tolerances of np.allclose
+            x = mesh.coord
+            y = x.copy()
+            y[:, 0] = x[:, 0] * (1 + 2e-6)
             mesh.coord = y
         elif op == "replacemesh":
             key = self.mesh1 if cfg["mesh"] == self.mesh0 else self.mesh0
